@@ -7,6 +7,7 @@ pub mod c03;
 pub mod c05;
 pub mod c06;
 pub mod c07;
+pub mod c08;
 pub mod c09;
 pub mod c10;
 pub mod c11;
@@ -39,6 +40,7 @@ macro_rules! table {
             "C05" => $f(&c05::C05, $arg),
             "C06" => $f(&c06::C06, $arg),
             "C07" => $f(&c07::C07, $arg),
+            "C08" => $f(&c08::C08, $arg),
             "C09" => $f(&c09::C09, $arg),
             "C10" => $f(&c10::C10, $arg),
             "C11" => $f(&c11::C11, $arg),
